@@ -12,7 +12,7 @@ package common
 //@   trusted
 //@   pure
 //@   requires pubKey != nil
-//@   ensures a != nil && addrID(a) == acc_addr(pk_bytes(ref(pubKey))) && addr_id(toiface(a)) == acc_addr(pk_bytes(ref(pubKey)))
+//@   ensures a != nil && addrID(a) == acc_addr(pk_bytes(ref(pubKey))) && addr_id(toiface(a)) == acc_addr(pk_bytes(ref(pubKey))) && !addr_contract(toiface(a))
 
 // C02: address equality is kind + id equality
 //@ func (a *Address) Equal(a2) (r)
@@ -111,3 +111,12 @@ package common
 //@   requires a != nil && b != nil && a != b && (a[0] == 0 || a[0] == 1) && ErrIllegalArgument != nil
 //@   modifies b[*]
 //@   ensures [roundtrip] err == nil && (forall i int :: {b[i]} 0 <= i && i < 21 ==> b[i] == a[i])
+
+// C13: the signature wrapper passes the hash through unchanged and refuses a missing signature
+//@ property C13
+//@ func (sig Signature) RecoverPublicKey(hash) (pk, err)
+//@   arith int
+//@   pure
+//@   callpre RecoverPublicKey: sig == caller_sig.Signature && hash == caller_hash
+//@   ensures [nosig] sig.Signature == nil ==> err != nil && pk == nil
+//@   ensures [recovered] err == nil ==> sig.Signature != nil && sig_ok(ref(sig.Signature), seq(hash)) && pk != nil && pk_bytes(ref(pk)) == sig_pk(ref(sig.Signature), seq(hash))
